@@ -296,7 +296,8 @@ theorem stage_execute (h : Fam c ms) (down : Downstream) :
     calls -/
 theorem stage_gateway (h : Fam c ms) (down : Downstream) :
     gateway c {} (op c ms) none down = envelope (run down (callsOf c ms) ⟨[], []⟩) := by
-  unfold gateway
+  rw [gateway_noVarDefs _ _ _ _ _ _ rfl]
+  unfold gatewayCore gatewayCoreWith
   simp only [stage_plan' h, stage_execute h down]
   cases run down (callsOf c ms) ⟨[], []⟩ with
   | ok st => simp [envelope, ScrubClean.cleanAll]
